@@ -908,6 +908,18 @@ func (e *CEnv) trSlice(x *CExpr) CVal {
 			}
 		}
 	}
+	// a byte-array VALUE (e.g. the result of sha256.Sum256): the byte string of the range
+	if at, ok := base.Ty.Underlying().(*types.Array); ok {
+		if b, isB := at.Elem().Underlying().(*types.Basic); isB && b.Kind() == types.Uint8 && e.v.mode != "bv" {
+			if x.Z != nil {
+				hi = e.intOf(e.tr(x.Z))
+			} else {
+				hi = IntLit(at.Len())
+			}
+			w := e.v.window(e.st, base.T, lo, Sub(hi, lo))
+			return CVal{e.mkBStr(w, Sub(hi, lo)), bstrType}
+		}
+	}
 	unsupported("contract: slice expression %s", x)
 	return CVal{}
 }
